@@ -625,7 +625,11 @@ pub struct MergeObs {
 pub fn observe_merge(fe: &[f64], ge: &[f64], sub: bool) -> MergeObs {
     let f = tag_pw(fe);
     let g = tag_pw(ge);
-    let r = guarded(|| if sub { &f - &g } else { &f + &g });
+    // the merge is a loop whose termination depends on its cursors: run it under a watchdog
+    let r = guarded_timeout(250, move || if sub { &f - &g } else { &f + &g });
+    if hung() {
+        return MergeObs { res: vec![], lanes_ok: false, panic: r.err() };
+    }
     let fl = lane_pw(fe, 0);
     let gl = lane_pw(ge, 1);
     let rl = guarded(|| if sub { &fl - &gl } else { &fl + &gl });
@@ -688,6 +692,13 @@ pub fn replay_merge(lines: &[Value], seed: u64) -> ReplayReport {
                         let t = o.res[sr - 1];
                         contract_ok &= t.1 == sf && t.2 == sg && t.3 == op;
                     }
+                }
+                if hung() {
+                    rep.viol(json!({"kind":"merge","op":if sub {"sub"} else {"add"},"embedding":e.name,"f_rank":f,"g_rank":g,
+                        "f":fe.iter().map(|&v| hex(v)).collect::<Vec<_>>(),"g":ge.iter().map(|&v| hex(v)).collect::<Vec<_>>(),
+                        "panic":o.panic,"note":"the merge did not return; replay stopped here"}));
+                    rep.nontrivial = distinct.len();
+                    return rep;
                 }
                 if !contract_ok {
                     rep.viol(json!({"kind":"merge","op":if sub {"sub"} else {"add"},"embedding":e.name,"f_rank":f,"g_rank":g,
@@ -754,6 +765,9 @@ pub fn drive_merge(seed: u64, pairs: usize, sink: &mut Sink) {
             sink.ev(json!({"ev":"merge","op":if sub {2} else {1},"f":jbs(&fe),"g":jbs(&ge),
                 "res":o.res.iter().map(|t| json!([jb(t.0), t.1, t.2, t.3])).collect::<Vec<_>>(),
                 "lanes":o.lanes_ok,"panic":o.panic.is_some(),"xs":jbs(&xs)}));
+            if hung() {
+                return; // the event above records the non-return as a panic-class outcome; nothing more can be run
+            }
         }
     }
 }
